@@ -35,15 +35,15 @@ def pcHoldL (cfg : Cfg) : PC → LockId → Nat
   | .tuStart t, L => depsHold cfg t L
   | .tu1 t, L => depsHold cfg t L
   | .tu0 t, L => dep0Hold cfg t L
-  | .addBody q _, L => ind (L = .queue q)
-  | .addUnlock q _, L => ind (L = .queue q)
+  | .addBody q _ _, L => ind (L = .queue q)
+  | .addUnlock q _ _, L => ind (L = .queue q)
   | .popInit q, L => ind (L = .queue q)
   | .popScan q _, L => ind (L = .queue q)
   | .popUnlock q _, L => ind (L = .queue q)
   | .popRemove q _ t, L => ind (L = .queue q) + depsHold cfg t L
   | .idle, _ | .getCheck _, _ | .getInc _, _ | .getCas _ _, _ | .getCount _ _, _ | .getMax _ _ _, _
   | .getTotal _ _, _ | .apFill _ _, _ | .apPlace _ _, _ | .crashed _, _ | .freeReset _, _
-  | .freeUnlock _, _ | .freeDec _, _ | .lockSpin _, _ | .lockTry _, _ | .addLock _ _, _
+  | .freeUnlock _, _ | .freeDec _, _ | .lockSpin _, _ | .lockTry _, _ | .addLock _ _ _, _ | .numInc _ _ _, _ | .relDec _ _ _, _ | .retire _, _ | .setUnf _ _, _ | .loadNum, _
   | .popLock _ _, _ | .qsz _, _ | .cInc _, _ | .cDec _, _ | .cPostInc _, _ | .cPreAdd _ _, _
   | .cPostAdd _ _, _ | .cPreSub _ _, _ | .cLoad _, _ | .lfLoad _ _, _ | .lfCas _ _ _, _ => 0
 
@@ -85,8 +85,12 @@ theorem tasksHold_erase (cfg : Cfg) (ts : List Nat) (t : Nat) (L : LockId) (h : 
 
 /-- dispatching the next call does not change what the thread holds -/
 theorem holdL_dispatch (cfg : Cfg) (L : LockId) (th : Thread) (c : Cmd) (hpc : th.pc = .idle) :
-    holdL cfg L (dispatch th c) = holdL cfg L th := by
-  cases c <;> simp only [dispatch, holdL, hpc, pcHoldL, ret, ctxHold] <;> try rfl
+    holdL cfg L (dispatch cfg th c) = holdL cfg L th := by
+  cases c
+  case release =>
+    simp only [dispatch]
+    (repeat' split) <;> simp [holdL, hpc, pcHoldL, ret]
+  all_goals (simp only [dispatch, holdL, hpc, pcHoldL, ret, ctxHold]; try rfl)
   all_goals
     split <;> simp only [pcHoldL, Nat.add_zero]
   · rename_i j k hk
